@@ -104,9 +104,9 @@ class Ctx:
         for d in self.drift[:5]:
             print('DRIFT: property=%s %s' % (self.prop, d), flush=True)
         cov = dict(self.cov)
-        st = sum(r.get('distinct', 0) for r in self.tlc_runs if r.get('kind') == 'mc')
-        tr = sum(r.get('generated', 0) for r in self.tlc_runs if r.get('kind') == 'mc')
-        cov['trace_validation_states'] = sum(r.get('distinct', 0) for r in self.tlc_runs if r.get('kind') != 'mc')
+        st = sum(r.get('distinct', 0) for r in self.tlc_runs if r.get('kind') in ('mc', 'conf'))
+        tr = sum(r.get('generated', 0) for r in self.tlc_runs if r.get('kind') in ('mc', 'conf'))
+        cov['trace_validation_states'] = sum(r.get('distinct', 0) for r in self.tlc_runs if r.get('kind') == 'trace')
         cov.setdefault('states', st)
         cov.setdefault('transitions', tr)
         cov.setdefault('traces_validated_against_impl', cov.get('impl_traces', 0))
